@@ -111,8 +111,9 @@ func spkUniverseFor(prop string, thorough bool) *spkUniverse {
 		u.Configs = append(u.Configs,
 			spkConfig{Name: "bgp-a-two-peers-on-one-address", Pools: []metallbv1beta1.IPAddressPool{poolA, poolB}, BGPAdvs: []metallbv1beta1.BGPAdvertisement{advA}, Peers: []metallbv1beta2.BGPPeer{p1, p1b, p2}},
 			spkConfig{Name: "bgp-e-two-peers-on-one-address", Pools: []metallbv1beta1.IPAddressPool{poolA, poolB}, BGPAdvs: []metallbv1beta1.BGPAdvertisement{advE}, Peers: []metallbv1beta2.BGPPeer{p1, p1b, p2}})
-		u.Svcs = []string{"s1", "s2", "s3", "s4"}
-		u.SvcVarsFor = map[int][]int{2: {1, 6}, 3: {1, 7}}
+		// the fourth service has the NAME of the first one, in another namespace
+		u.Svcs = []string{"s1", "s2", "s3", "ns2/s1"}
+		u.SvcVarsFor = map[int][]int{2: {1, 6}, 3: {1, 6, 7}}
 		u.Configs = append(u.Configs, spkConfig{Name: "bgp-pool-a-only+pool-b-unadvertised", Pools: []metallbv1beta1.IPAddressPool{poolA, poolB}, BGPAdvs: []metallbv1beta1.BGPAdvertisement{advB}, Peers: peers})
 		u.EPVars = u.EPVars[:3]
 		u.NodeVars[spkMe] = []spkNodeVariant{u.NodeVars[spkMe][0], u.NodeVars[spkMe][3], u.NodeVars[spkMe][1], u.NodeVars[spkMe][2], u.NodeVars[spkMe][4]}
@@ -140,6 +141,11 @@ func spkUniverseFor(prop string, thorough bool) *spkUniverse {
 	u.Configs = append(u.Configs,
 		spkConfig{Name: "bgp-a-p1-secret", Pools: []metallbv1beta1.IPAddressPool{poolA}, BGPAdvs: []metallbv1beta1.BGPAdvertisement{advA}, Peers: []metallbv1beta2.BGPPeer{p1s, p2}, Secrets: []v1.Secret{secret("one")}},
 		spkConfig{Name: "bgp-a-p1-secret-rotated", Pools: []metallbv1beta1.IPAddressPool{poolA}, BGPAdvs: []metallbv1beta1.BGPAdvertisement{advA}, Peers: []metallbv1beta2.BGPPeer{p1s, p2}, Secrets: []v1.Secret{secret("two")}})
+	// ... and one that differs from bgp-a in nothing but the BFD profile peer p1 uses
+	p1bfd := *p1.DeepCopy()
+	p1bfd.Spec.BFDProfile = "fast"
+	u.Configs = append(u.Configs, spkConfig{Name: "bgp-a-p1-bfd", Pools: []metallbv1beta1.IPAddressPool{poolA}, BGPAdvs: []metallbv1beta1.BGPAdvertisement{advA}, Peers: []metallbv1beta2.BGPPeer{p1bfd, p2},
+		BFDs: []metallbv1beta1.BFDProfile{{ObjectMeta: metav1.ObjectMeta{Name: "fast", Namespace: spkNS}, Spec: metallbv1beta1.BFDProfileSpec{ReceiveInterval: ptr.To(uint32(100))}}}})
 	if !thorough {
 		u.SvcVars = u.SvcVars[:8]
 		u.NodeVars[spkMe] = []spkNodeVariant{u.NodeVars[spkMe][0], u.NodeVars[spkMe][1], u.NodeVars[spkMe][2], u.NodeVars[spkMe][4]}
@@ -279,7 +285,7 @@ func (s *spkSys) refBGP() *refBGP {
 		} else if !refReadyEndpoint(eps, "") {
 			continue
 		}
-		key := "ns/" + n
+		key := svcKey(n)
 		svcPfx[key] = map[string]bool{}
 		for _, ip := range ips {
 			for _, a := range advs {
@@ -502,7 +508,7 @@ func (o *spkOracle) after(sys verifrt.System, hist []verifrt.Event, ev verifrt.E
 			}
 		}
 		for _, n := range o.u.Svcs {
-			key := "ns/" + n
+			key := svcKey(n)
 			got := s.c.bgpPeersFetcher(key).UnsortedList()
 			sort.Strings(got)
 			if fmt.Sprint(got) != fmt.Sprint(ref.SvcPeers[key]) && !(len(got) == 0 && len(ref.SvcPeers[key]) == 0) {
